@@ -1013,9 +1013,41 @@ func (c scase) monitor(m *lib.Monitor, o outcome) {
 			bad("outside-flag", "modepb.Cut must flag `outside` exactly when t is not the mode's start and no segment is active at t", strconv.FormatBool(x != st && !active), o.text)
 		}
 		if !nearby(x, st) {
-			// the sampling below walks every ns between start and t; instants further apart are tied to the
-			// model (saturating Sub, C18_modes_int64_cut / C18_modes_saturation_witness) but not sampled
-			m.Count("excluded:far-instants/mcut")
+			// the sampling below walks every ns between start and t; instants further apart are judged at the
+			// instants around the start, every breakpoint and t, read through the real modepb.MagnitudeAt (judged by
+			// the exact big-offset oracle itself, C18_modes_read_any_span).  Excluded: t more than 2^63 ns after the
+			// start of a mode with an unbounded tail, where t.Sub(start) saturates and the `before` part cannot be as
+			// long as it should (C18_modes_saturation_witness) — compared with the model only
+			_, fits := subOK(x, st)
+			if _, _, inf := spans(mode.segs); !fits && inf && x > st {
+				m.Count("excluded:saturation/mcut")
+				return
+			}
+			m.Count("far-instants/mcut(judged at breakpoints)")
+			var pts []int64
+			for _, b := range breakpoints(mode.segs) {
+				if y, ok := addOK(st, b); ok {
+					pts = append(pts, y)
+				}
+			}
+			for _, y := range farSamples(append(pts, x)) {
+				want, _, _ := stepAtOff(mode.segs, y, st)
+				if y < x {
+					if got := realModeMagAbs(o.mBefore, y); got != want {
+						bad("before-differs", "the mode before the cut differs from the mode before t", fmt.Sprintf("%d at %d", want, y), fmt.Sprintf("%d (%s)", got, o.text))
+						break
+					}
+					continue
+				}
+				if got := realModeMagAbs(o.mAfter, y); got != want {
+					bad("after-differs", "the mode after the cut differs from the mode from t on", fmt.Sprintf("%d at %d", want, y), fmt.Sprintf("%d (%s)", got, o.text))
+					break
+				}
+				if got := realModeMagAbs(o.mBefore, y); got != 0 {
+					bad("before-too-long", "the mode before the cut is non-zero at or after t", fmt.Sprintf("0 at %d", y), fmt.Sprintf("%d (%s)", got, o.text))
+					break
+				}
+			}
 			return
 		}
 		h := st + horizon(mode.segs) + 3
@@ -1137,7 +1169,42 @@ func (c scase) monitor(m *lib.Monitor, o outcome) {
 			all = append(all, mo.segs)
 		}
 		if any && !nearby(latest, earliest) {
-			m.Count("excluded:far-instants/msum")
+			// start times far apart: judged at the instants around every mode's breakpoints through the real
+			// modepb.MagnitudeAt, unless latest - earliest (plus the lists' lengths) leaves the int64 ns range, where
+			// start.Sub(earliest) saturates or the shifted totals overflow (C18_modes_int64_sum is claimed below 2^63)
+			span, fits := subOK(latest, earliest)
+			if _, ok := addOK(span, horizon(all...)+2000); !fits || !ok {
+				m.Count("excluded:saturation/msum")
+				return
+			}
+			m.Count("far-instants/msum(judged at breakpoints)")
+			var pts []int64
+			for _, mo := range ms {
+				st := latest
+				if mo.hasStart {
+					st = mo.start
+				}
+				for _, b := range breakpoints(mo.segs) {
+					if y, ok := addOK(st, b); ok {
+						pts = append(pts, y)
+					}
+				}
+			}
+			for _, y := range farSamples(pts) {
+				var want int64
+				for _, mo := range ms {
+					st := latest
+					if mo.hasStart {
+						st = mo.start
+					}
+					v, _, _ := stepAtOff(mo.segs, y, st)
+					want += v
+				}
+				if got := realModeMagAbs(o.mode, y); got != want {
+					bad("not-pointwise", "modepb.Sum is not the pointwise sum of the modes", fmt.Sprintf("%d at %d", want, y), fmt.Sprintf("%d (%s)", got, o.text))
+					break
+				}
+			}
 			return
 		}
 		h := latest + horizon(all...) + 3
@@ -1192,6 +1259,41 @@ func maxDomain(c scase, l []sg) (wf bool, from int64, ok bool) {
 		}
 	}
 	return true, from, true
+}
+
+// farSamples: every point of pts and its two neighbours (where they fit an int64), sorted, without duplicates.
+func farSamples(pts []int64) []int64 {
+	set := map[int64]bool{}
+	for _, p := range pts {
+		for _, dx := range []int64{-1, 0, 1} {
+			if y, ok := addOK(p, dx); ok {
+				set[y] = true
+			}
+		}
+	}
+	out := make([]int64, 0, len(set))
+	for y := range set {
+		out = append(out, y)
+	}
+	sort.Slice(out, func(i, j int) bool { return out[i] < out[j] })
+	return out
+}
+
+// realModeMagAbs: the value of a (possibly nil) result mode WITH a start time at the absolute instant y, read
+// through the real modepb.MagnitudeAt (which copes with instants more than 2^63 ns apart).
+func realModeMagAbs(m *traits.ElectricMode, y int64) int64 {
+	if m == nil {
+		return 0
+	}
+	v, ok := modepb.MagnitudeAt(at(y), m)
+	if !ok {
+		return 0
+	}
+	n, ok := scaled(v)
+	if !ok {
+		return math.MinInt64 + 12345
+	}
+	return n
 }
 
 // far is the value of the pointwise sum of the lists "at infinity": the sum of the magnitudes of
@@ -1877,6 +1979,16 @@ func runSegFloat(f lib.Flags, res *lib.Result, drv *lib.Driver, mon *lib.Monitor
 				c.safeMonitor(mon, o)
 				continue
 			}
+			if c.Op == "sum" {
+				// rounding changes magnitudes only, never the timing (C18_sum_float_timing): whatever is rounded and
+				// in whatever order, the finished segments of the result have the lengths of the exact sum's — the
+				// differences of the distinct edge times
+				mon.Eval(lines[i], true, nil)
+				mon.Count("float32/sum-timing(rounding case)")
+				if want, got := fmt.Sprint(expectedClosedLens(lists[i])), fmt.Sprint(closedLensOf(o.segs)); want != got && !strings.HasPrefix(o.text, "panic:") {
+					mon.Violate("C18/Sum/float-timing", "the breakpoints of Sum on rounding magnitudes are not those of the pointwise sum (rounding may change magnitudes only)", c, want, got+" (result "+o.text+")")
+				}
+			}
 			if c.Op == "summag" || (c.Op == "sum" && edgeTimesDistinct(lists[i])) {
 				// rounding happens, but in an order the code fixes (list order / distinct edge times): compare
 				// with the model's float32 rendering (rnd24 works on numerators over any power-of-two denominator)
@@ -1909,6 +2021,51 @@ func runSegFloat(f lib.Flags, res *lib.Result, drv *lib.Driver, mon *lib.Monitor
 			}
 		}
 	}
+}
+
+// expectedClosedLens: the lengths of the finished segments of the pointwise sum of ls — the differences of
+// consecutive distinct instants at which some reachable segment of non-zero magnitude starts or ends, from 0.
+func expectedClosedLens(ls [][]sg) []int64 {
+	set := map[int64]bool{}
+	for _, l := range ls {
+		var cur int64
+		for _, s := range l {
+			if s.mag != 0 {
+				set[cur] = true
+			}
+			if s.inf {
+				break
+			}
+			cur += s.len
+			if s.mag != 0 {
+				set[cur] = true
+			}
+		}
+	}
+	if len(set) == 0 {
+		return nil
+	}
+	set[0] = true
+	times := make([]int64, 0, len(set))
+	for t := range set {
+		times = append(times, t)
+	}
+	sort.Slice(times, func(i, j int) bool { return times[i] < times[j] })
+	var out []int64
+	for i := 1; i < len(times); i++ {
+		out = append(out, times[i]-times[i-1])
+	}
+	return out
+}
+
+func closedLensOf(l []*traits.ElectricMode_Segment) []int64 {
+	var out []int64
+	for _, s := range l {
+		if s != nil && s.Length != nil {
+			out = append(out, int64(s.Length.AsDuration()))
+		}
+	}
+	return out
 }
 
 // farInstant: an instant about 1.5 * 2^62 ns (219 years) before or after model time 0, so that two of them
@@ -1966,7 +2123,7 @@ func runModeFar(f lib.Flags, res *lib.Result, drv *lib.Driver, mon *lib.Monitor)
 	k := res.Tie("modes-far-instants", "K1",
 		"modes (random lists of 0-6 segments) whose start times and query instants lie about 219 years before or after model time 0 (and some ordinary ones), so that "+
 			"t.Sub(start) and start.Sub(earliest) exceed the int64 ns range and saturate: modepb.ActiveAt, MagnitudeAt, MaxSegmentAfter, MinAt (1-3 modes), Cut, Sum (1-3 modes); "+
-			"the model saturates like time.Time.Sub; the reading operations are also judged by the oracle (exact big-offset step function), Cut/Sum beyond 2^20 ns are compared with the model only; "+
+			"the model saturates like time.Time.Sub; the reading operations are also judged by the oracle (exact big-offset step function), Cut/Sum beyond 2^20 ns are judged at the instants around every breakpoint (read through the real modepb.MagnitudeAt) unless the spans involved leave the int64 ns range and saturate (compared with the model only there); "+
 			"distinct = distinct request line; non-trivial = some list non-empty")
 	r := lib.NewRand(f.Seed + 2929)
 	n := f.N(8000, 200000)
